@@ -2,7 +2,7 @@
 //! string of length <= 2: accept/reject, consumed length, re-encoded value, decode_all, skip,
 //! depth-limited decode). Error descriptions are never part of a digest.
 
-use parity_scale_codec::{Compact, Decode, DecodeAll, DecodeLimit, Encode, OptionBool};
+use parity_scale_codec::{Compact, Decode, DecodeAll, DecodeLimit, DecodeWithMemLimit, DecodeWithMemTracking, Encode, OptionBool};
 use std::{
 	borrow::Cow,
 	collections::{BTreeMap, BTreeSet, BinaryHeap, LinkedList, VecDeque},
@@ -319,6 +319,59 @@ mod derived {
 	}
 }
 
+/// Extra observations that exist only with some features; hashed into separate lines so that the
+/// per-type digests stay comparable across configurations.
+fn digest_mem<T: Corpus + Encode + DecodeWithMemTracking>(name: &str) {
+	let mut h = Fnv::new();
+	for v in T::corpus() {
+		let e = v.encode();
+		// tracked usage = the smallest limit that succeeds (found by doubling + bisection)
+		let ok = |l: usize| T::decode_with_mem_limit(&mut &e[..], l).is_ok();
+		let mut hi = 1usize;
+		while !ok(hi) && hi < 1 << 40 {
+			hi *= 2;
+		}
+		let mut lo = 0usize;
+		while lo + 1 < hi {
+			let mid = lo + (hi - lo) / 2;
+			if ok(mid) {
+				hi = mid;
+			} else {
+				lo = mid;
+			}
+		}
+		h.bytes(&(if ok(0) { 0u64 } else { hi as u64 }).to_le_bytes());
+	}
+	println!("memlimit:{}\t{:016x}", name, h.0);
+}
+
+#[cfg(feature = "bytes")]
+fn digest_from_bytes<T: Corpus + Encode + Decode>(name: &str) {
+	// the zero-copy path must accept / reject exactly like the slice path (valid and truncated)
+	let mut h = Fnv::new();
+	for v in T::corpus() {
+		let e = v.encode();
+		for cut in 0..=e.len().min(24) {
+			let x = &e[..e.len() - cut];
+			let a = std::panic::catch_unwind(|| parity_scale_codec::decode_from_bytes::<T>(bytes::Bytes::copy_from_slice(x)).map(|d| d.encode()).ok());
+			let b = T::decode(&mut &x[..]).map(|d| d.encode()).ok();
+			match a {
+				Ok(a) => {
+					h.byte((a == b) as u8);
+					if a != b {
+						println!("from_bytes-mismatch:{}\t{:016x}", name, x.len());
+					}
+				},
+				Err(_) => {
+					h.byte(2);
+					println!("from_bytes-panic:{}\t{:016x}", name, x.len());
+				},
+			}
+		}
+	}
+	println!("from_bytes:{}\t{:016x}", name, h.0);
+}
+
 fn digest<T: Corpus + Encode + Decode>(name: &str) {
 	let mut h = Fnv::new();
 	for v in T::corpus() {
@@ -405,6 +458,17 @@ fn main() {
 		mel::<Compact<u128>>("Compact<u128>");
 		mel::<Option<(u8, [u16; 3])>>("Option<(u8, [u16; 3])>");
 		mel::<Result<Duration, bool>>("Result<Duration, bool>");
+	}
+	macro_rules! dm {
+		($($t:ty),* $(,)?) => {$( digest_mem::<$t>(stringify!($t)); )*}
+	}
+	dm!(Vec<u8>, Vec<u16>, Vec<u32>, Vec<u128>, Vec<String>, Vec<Vec<u8>>, VecDeque<u32>, LinkedList<u8>, BTreeSet<u16>, BTreeMap<u8, u16>, String, Box<u32>, Option<Vec<Option<u8>>>, (Compact<u32>, String));
+	#[cfg(feature = "bytes")]
+	{
+		digest_from_bytes::<bytes::Bytes>("Bytes");
+		digest_from_bytes::<(u32, bytes::Bytes)>("(u32, Bytes)");
+		digest_from_bytes::<Vec<u16>>("Vec<u16>");
+		digest_from_bytes::<(String, Option<u8>)>("(String, Option<u8>)");
 	}
 	// EncodeAppend is part of the wire format too
 	{
